@@ -4,6 +4,8 @@ CONSTANTS
   MaxDepth = 2
   MaxRoots = 1
   RootFilter = {"blogPost", "search", "performAction"}
+  FieldFilter = {}
+  MaxReval = 0
   Mut = "none"
 SPECIFICATION Spec
 INVARIANTS RefOK WellFormedInv
